@@ -143,6 +143,19 @@ TOLERATED_MISSING = {"drop_row", "blank_value"}
 TOLERATED_EXTRA = {"extra_row"}
 
 
+def unknown_label(rng, items, typed_int):
+    """a label that is NOT an item but looks like one: an item with a suffix / padding / other case / cut short, a neighbouring number"""
+    items = list(items)
+    it = items[int(rng.integers(0, len(items)))]
+    if typed_int or all(isinstance(q, (int, np.integer)) and not isinstance(q, bool) for q in items):
+        cands = [9999, int(it) * 10, -int(it) - 1, max(int(q) for q in items) + 1, min(int(q) for q in items) - 1]
+    else:
+        t = str(it)
+        cands = ["no-such-item", t + "A", t + "27", t + " ", " " + t, t.upper(), t.lower(), t.swapcase(), t[:-1], t + "_" + t, "Rest of " + t]
+    cands = [c for c in cands if c not in items and c != ""]
+    return cands[int(rng.integers(0, len(cands)))] if cands else (9999 if typed_int else "no-such-item")
+
+
 def position(rng, n, where):
     if n <= 0:
         return 0
@@ -197,8 +210,9 @@ def inject(df, spec, info, fault, rng, where):
         c = dimcols[int(rng.integers(0, len(dimcols)))]
         typed_int = info["dimcol_of"][c][3] is int
         df[c] = df[c].astype(object)
-        df.loc[i, c] = 9999 if typed_int else "no-such-item"
-        return df, {"row": i, "column": str(c), "relabelled": True}
+        lab = unknown_label(rng, info["dimcol_of"][c][2], typed_int)
+        df.loc[i, c] = lab
+        return df, {"row": i, "column": str(c), "relabelled": True, "label": repr(lab)}
     if fault == "extra_row":
         if not dimcols:
             return None, "no dimension column"
@@ -207,7 +221,7 @@ def inject(df, spec, info, fault, rng, where):
         c = dimcols[int(rng.integers(0, len(dimcols)))]
         typed_int = info["dimcol_of"][c][3] is int
         row[c] = row[c].astype(object)
-        row.iloc[0, list(df.columns).index(c)] = 9999 if typed_int else "no-such-item"
+        row.iloc[0, list(df.columns).index(c)] = unknown_label(rng, info["dimcol_of"][c][2], typed_int)
         df[c] = df[c].astype(object)
         out = pd.concat([df.iloc[:i], row, df.iloc[i:]], ignore_index=True)
         return out, {"row": i, "column": str(c)}
